@@ -878,8 +878,12 @@ def check_vals(ctx, lists, tag):
                                   actual=msg, case={"kind": "vals", "items": l})
             irow = E[i][1]
             mrow = "".join("1" if c == "T" else "0" for c in rows[i])
-            if irow != mrow:
-                j = next(j for j in range(n) if irow[j] != mrow[j])
+            # == between two values that hold a vector / map is structural in the code and by tag in the model
+            # (KUnhashable): never reached through a map, not compared
+            hashable = [p.split(":")[0] == "T" for p in per]
+            diff = [j for j in range(n) if irow[j] != mrow[j] and (hashable[i] or hashable[j])]
+            if diff:
+                j = diff[0]
                 ctx.corr_broken.append("== differs: `%s` == `%s`: impl %s model %s | %s" % (v_item(l[i]), v_item(l[j]), irow[j], mrow[j], line[:300]))
             # the property's premise, directly on the implementation: == values (both hashable) hash equally
             for j in range(n):
